@@ -86,6 +86,8 @@ struct RunCase {
     lim_n: u32,
     lim_seed: u64,
     alias: u32,
+    /// CPU of the dump: arm64 amd64 arm x86 mips mips64 arm64old ppc ppc64 sparc
+    cpu: String,
     mods: Vec<(String, Res)>,
     /// per module: CodeView group — modules of one group carry the same PDB70 record (debug file,
     /// debug id) and the same timestamp (hence code id) although their code files differ
@@ -138,7 +140,7 @@ fn parse_case(case: &str) -> Option<Case> {
     }
     match f[1] {
         "run" => {
-            if f.len() != 13 {
+            if f.len() != 13 && f.len() != 14 {
                 return None;
             }
             let feat: u32 = field(f[2], "f:")?.parse().ok()?;
@@ -192,15 +194,22 @@ fn parse_case(case: &str) -> Option<Case> {
             }
             let rs: u64 = field(f[11], "rs:")?.parse().ok()?;
             let evil: u32 = field(f[12], "evil:")?.parse().ok()?;
-            if feat > 2 || alias > 4 || evil > 2 || mods.len() > 64 || thr.len() > 200 || sched.is_empty() || runs == 0 {
+            if feat > 2 || alias > 5 || evil > 2 || mods.len() > 64 || thr.len() > 200 || sched.is_empty() || runs == 0 {
                 return None;
             }
+            // optional last field (older corpus lines: ARM64, or AMD64 for flavour 4)
+            let cpu = match f.get(13) {
+                Some(x) => field(x, "cpu:")?.to_string(),
+                None => if alias == 4 { "amd64" } else { "arm64" }.to_string(),
+            };
+            cpu_spec(&cpu)?;
             Some(Case::Run(RunCase {
                 feat,
                 exc,
                 lim_n: n.parse().ok()?,
                 lim_seed: s.parse().ok()?,
                 alias,
+                cpu,
                 mods,
                 cv,
                 thr,
@@ -291,7 +300,7 @@ fn parse_case(case: &str) -> Option<Case> {
 
 fn render_run(c: &RunCase) -> String {
     format!(
-        "det run f:{} exc:{} lim:{}.{} alias:{} mods:{} thr:{} sched:{} runs:{} x:{} rs:{} evil:{}",
+        "det run f:{} exc:{} lim:{}.{} alias:{} mods:{} thr:{} sched:{} runs:{} x:{} rs:{} evil:{} cpu:{}",
         c.feat,
         c.exc as u32,
         c.lim_n,
@@ -316,7 +325,8 @@ fn render_run(c: &RunCase) -> String {
         c.runs,
         c.execs,
         c.rs,
-        c.evil
+        c.evil,
+        c.cpu
     )
 }
 
@@ -412,6 +422,135 @@ fn tid(t: usize) -> u32 {
     1000 + 7 * t as u32
 }
 
+/// what the generator needs to know about a CPU
+struct CpuSpec {
+    /// `MINIDUMP_SYSTEM_INFO.processor_architecture`
+    arch: u16,
+    /// bytes per stack slot / register (the size `CfiStackWalker` reads with `^`)
+    word: u64,
+    /// architecture string of the MODULE line
+    sym_arch: &'static str,
+}
+
+fn cpu_spec(cpu: &str) -> Option<CpuSpec> {
+    let (arch, word, sym_arch) = match cpu {
+        "x86" => (0, 4, "x86"),
+        "mips" => (1, 4, "mips"),
+        "ppc" => (3, 4, "ppc"),
+        "arm" => (5, 4, "arm"),
+        "amd64" => (9, 8, "x86_64"),
+        "arm64" => (12, 8, "arm64"),
+        "sparc" => (0x8001, 4, "sparc"),
+        "ppc64" => (0x8002, 8, "ppc64"),
+        "arm64old" => (0x8003, 8, "arm64"),
+        // (no context reader for this architecture number: threads without context)
+        "mips64" => (0x8004, 8, "mips64"),
+        _ => return None,
+    };
+    Some(CpuSpec { arch, word, sym_arch })
+}
+
+const RUN_CPUS: &[&str] = &["arm64", "amd64", "arm", "x86", "mips", "mips64", "arm64old", "ppc", "ppc64", "sparc"];
+
+/// STACK CFI records of one module for the dump's CPU. Every frame of the generated stacks is four
+/// slots of `word` bytes below the CFA: a saved register, an alternative frame-pointer slot, the
+/// canonical frame-pointer slot, the return address. Flavours (`alias:`):
+///   0 every register named once; 1 every alias pair the CPU's `memoize_register` knows named under
+///   BOTH spellings with different rules (where the CPU has none: the `$`-prefixed and the plain
+///   spelling, which are ONE key of the rule map — the later text wins); 2 one spelling `.undef`;
+///   3 like 1 plus a delta record overriding one spelling; 4 (legacy) = 0 on AMD64;
+///   5 like 1 with `$` prefixes sprinkled over labels and duplicate `$x:` / `x:` occurrences.
+/// On the unchanged tree the spelling that sorts LAST carries the value the chain needs.
+fn cfi_text(cpu: &str, flavour: u32) -> String {
+    let w = cpu_spec(cpu).map(|s| s.word as i64).unwrap_or(8);
+    let (w4, w3, w2) = (4 * w, 3 * w, 2 * w);
+    let fl = if flavour == 4 { 0 } else { flavour };
+    let both = fl == 1 || fl == 3 || fl == 5;
+    let mut s = String::new();
+    match cpu {
+        "amd64" => {
+            let rbp = match fl {
+                0 => "$rbp: .cfa -16 + ^".to_string(),
+                2 => "$rbp: .cfa -24 + ^ rbp: .undef".to_string(),
+                _ => "rbp: .cfa -24 + ^ $rbp: .cfa -16 + ^".to_string(),
+            };
+            s.push_str(&format!("STACK CFI INIT 1000 7000 .cfa: $rsp 32 + $r12: $rbx 1 + {rbp} .ra: .cfa -8 + ^ $rbx: .cfa -32 + ^ $r14: .cfa $r13: .undef\n"));
+            if fl == 3 || fl == 5 {
+                s.push_str("STACK CFI 1400 rbp: .cfa -32 + ^ $rbp: .cfa -16 + ^ r15: 77\n");
+            }
+            s.push_str("STACK CFI 2000 $r15: .cfa 8 - $r14: 5\n");
+        }
+        "x86" => {
+            let ebp = match fl {
+                0 => "$ebp: .cfa -8 + ^".to_string(),
+                2 => "$ebp: .cfa -12 + ^ ebp: .undef".to_string(),
+                _ => "ebp: .cfa -12 + ^ $ebp: .cfa -8 + ^".to_string(),
+            };
+            s.push_str(&format!("STACK CFI INIT 1000 7000 .cfa: $esp 16 + $esi: $ebx 1 + {ebp} .ra: .cfa -4 + ^ $ebx: .cfa -16 + ^ $edi: .undef\n"));
+            if fl == 3 || fl == 5 {
+                s.push_str("STACK CFI 1400 ebp: .cfa -16 + ^ $ebp: .cfa -8 + ^ $eax: 77\n");
+            }
+            s.push_str("STACK CFI 2000 $ecx: .cfa 8 - edi: 5\n");
+        }
+        "mips" | "mips64" => {
+            let d = if fl == 5 { "$" } else { "" };
+            let fp = match fl {
+                0 => format!("fp: .cfa -{w2} + ^"),
+                2 => format!("fp: .cfa -{w3} + ^ $fp: .undef"),
+                _ => format!("$fp: .cfa -{w3} + ^ fp: .cfa -{w2} + ^"),
+            };
+            s.push_str(&format!("STACK CFI INIT 1000 7000 .cfa: {d}sp {w4} + s1: {d}s0 1 + {fp} .ra: .cfa -{w} + ^ {d}s0: .cfa -{w4} + ^ s2: .cfa s3: .undef\n"));
+            if fl == 3 || fl == 5 {
+                s.push_str(&format!("STACK CFI 1400 $fp: .cfa -{w4} + ^ fp: .cfa -{w2} + ^ s4: 77\n"));
+            }
+            s.push_str("STACK CFI 2000 s5: .cfa 8 - $s2: 5\n");
+        }
+        "arm" => {
+            // "fp" < "r11", "lr" < "r14", "pc" < "r15", "r13" < "sp": the second of each wins
+            let d = if fl == 5 { "$" } else { "" };
+            let fp = match fl {
+                0 => format!("r11: .cfa -{w2} + ^"),
+                2 => format!("r11: .undef fp: .cfa -{w3} + ^"),
+                _ => format!("r11: .cfa -{w2} + ^ {d}fp: .cfa -{w3} + ^"),
+            };
+            let more = if both {
+                format!(" sp: .cfa r13: .cfa 64 + {d}lr: 4660 r14: 22136 r15: .cfa -{w} + ^ pc: 74565")
+            } else {
+                String::new()
+            };
+            s.push_str(&format!("STACK CFI INIT 1000 7000 .cfa: sp {w4} + r5: {d}r4 1 + {fp} .ra: .cfa -{w} + ^ r4: .cfa -{w4} + ^ r6: .cfa r7: .undef{more}\n"));
+            if fl == 3 || fl == 5 {
+                s.push_str(&format!("STACK CFI 1400 fp: .cfa -{w4} + ^ r8: 77 $r14: 4369 lr: 8738\n"));
+            }
+            if fl == 5 {
+                s.push_str(&format!("STACK CFI 1800 $r11: .cfa -{w2} + ^ r11: .cfa -{w2} + ^ $fp: 7 fp: .cfa -{w3} + ^\n"));
+            }
+            s.push_str("STACK CFI 2000 r9: .cfa 8 - r6: 5\n");
+        }
+        // arm64, arm64old — and the CPUs without an unwinder (the records are never evaluated)
+        _ => {
+            // "fp" < "x29", "lr" < "x30": the second of each wins
+            let d = if fl == 5 { "$" } else { "" };
+            let x29 = match fl {
+                2 => "x29: .undef".to_string(),
+                _ => "x29: .cfa -16 + ^".to_string(),
+            };
+            let fp = if fl >= 1 { format!(" {d}fp: .cfa -24 + ^") } else { String::new() };
+            let more = if fl == 5 { " lr: 4660 x30: 22136 $x19: 1 x19: .cfa -32 + ^" } else { "" };
+            // the labels are deliberately not in name order, and x19..x22 make the rule map big enough
+            // for its hash order to vary
+            s.push_str(&format!(
+                "STACK CFI INIT 1000 7000 .cfa: sp 32 + x21: x19 1 + {x29} .ra: .cfa -8 + ^ x19: .cfa -32 + ^{fp} x20: .cfa x22: .undef{more}\n"
+            ));
+            if fl == 3 || fl == 5 {
+                s.push_str("STACK CFI 1400 fp: .cfa -32 + ^ x23: 77\n");
+            }
+            s.push_str("STACK CFI 2000 x24: .cfa 8 - x20: 5\n");
+        }
+    }
+    s
+}
+
 fn symbol_text(c: &RunCase, i: usize) -> String {
     let leaf = leaf_of(&c.mods[i].0);
     // modules of one CodeView group are copies of one binary: same symbol file (up to the MODULE line's name)
@@ -419,7 +558,8 @@ fn symbol_text(c: &RunCase, i: usize) -> String {
         Some(g) => 100 + g as usize,
         None => i,
     };
-    let mut s = format!("MODULE Linux arm64 {:032X}0 {leaf}\n", 0xabcd_0000u64 + i as u64);
+    let arch = cpu_spec(&c.cpu).map(|s| s.sym_arch).unwrap_or("arm64");
+    let mut s = format!("MODULE Linux {arch} {:032X}0 {leaf}\n", 0xabcd_0000u64 + i as u64);
     s.push_str(&format!("FILE 0 src/m{i}.c\nFILE 1 src/inl{i}.h\n"));
     s.push_str(&format!("INLINE_ORIGIN 0 inlined_{i}\n"));
     for k in 0..14u64 {
@@ -431,31 +571,125 @@ fn symbol_text(c: &RunCase, i: usize) -> String {
         s.push_str(&format!("{a:x} 100 {} 0\n{:x} 100 {} 0\n", 10 + k, a + 0x100, 20 + k));
     }
     s.push_str(&format!("PUBLIC 8000 0 pub{i}\n"));
-    if c.alias == 4 {
-        s = s.replace("MODULE Linux arm64", "MODULE Linux x86_64");
-        s.push_str("STACK CFI INIT 1000 7000 .cfa: $rsp 32 + $r12: $rbx 1 + $rbp: .cfa -16 + ^ .ra: .cfa -8 + ^ $rbx: .cfa -32 + ^ $r14: .cfa $r13: .undef\n");
-        s.push_str("STACK CFI 2000 $r15: .cfa 8 - $r14: 5\n");
-        return s;
-    }
-    let x29 = match c.alias {
-        2 => "x29: .undef".to_string(),
-        _ => "x29: .cfa -16 + ^".to_string(),
-    };
-    let fp = if c.alias >= 1 { " fp: .cfa -24 + ^" } else { "" };
-    // the labels are deliberately not in name order, and x19..x22 make the rule map big enough for
-    // its hash order to vary
-    s.push_str(&format!(
-        "STACK CFI INIT 1000 7000 .cfa: sp 32 + x21: x19 1 + {x29} .ra: .cfa -8 + ^ x19: .cfa -32 + ^{fp} x20: .cfa x22: .undef\n"
-    ));
-    if c.alias == 3 {
-        s.push_str("STACK CFI 1400 fp: .cfa -32 + ^ x23: 77\n");
-    }
-    s.push_str("STACK CFI 2000 x24: .cfa 8 - x20: 5\n");
+    s.push_str(&cfi_text(&c.cpu, c.alias));
     s
 }
 
 fn leaf_of(path: &str) -> &str {
     path.rsplit(['/', '\\']).next().unwrap_or(path)
+}
+
+/// thread context of the dump's CPU: instruction pointer, stack pointer, frame pointer and
+/// per-thread values in the callee-saved registers the CFI records mention
+fn ctx_section(cpu: &str, pc: u64, sp: u64, fp: u64, t: usize) -> Section {
+    use scroll::ctx::SizeWith;
+    use scroll::{Pread, Pwrite};
+    macro_rules! ctx {
+        ($ty:ty, |$c:ident| $body:block) => {{
+            let n = <$ty>::size_with(&scroll::LE);
+            let mut bytes = vec![0u8; n];
+            let mut $c: $ty = bytes.pread_with(0, scroll::LE).expect("context pread");
+            $body
+            bytes.pwrite_with($c, 0, scroll::LE).expect("context pwrite");
+            Section::with_endian(LE).append_bytes(&bytes)
+        }};
+    }
+    let t = t as u64;
+    match cpu {
+        "x86" => ctx!(md::CONTEXT_X86, |c| {
+            c.context_flags = 0x1003f;
+            c.eip = pc as u32;
+            c.esp = sp as u32;
+            c.ebp = fp as u32;
+            c.ebx = (0x10 + t) as u32;
+            c.esi = (0x1200 + t) as u32;
+            c.edi = (0x1210 + t) as u32;
+            c.eax = 1;
+            c.ecx = 2;
+            c.edx = 3;
+        }),
+        "amd64" => ctx!(md::CONTEXT_AMD64, |c| {
+            c.context_flags = 0x10001f;
+            c.rax = 1;
+            c.rcx = 2;
+            c.rdx = 3;
+            c.rbx = 0x10 + t;
+            c.rsp = sp;
+            c.rbp = fp;
+            c.rsi = 0x1200 + t;
+            c.rdi = 0x1210 + t;
+            c.r8 = 0x1220 + t;
+            c.r9 = 0x1230 + t;
+            c.r10 = 0x1240 + t;
+            c.r11 = 0x1250 + t;
+            c.r12 = 0x1260 + t;
+            c.r13 = 0x1270 + t;
+            c.r14 = 0x1280 + t;
+            c.r15 = 0x1290 + t;
+            c.rip = pc;
+        }),
+        "arm" => ctx!(md::CONTEXT_ARM, |c| {
+            c.context_flags = 0x40000007;
+            for r in 0..16u32 {
+                c.iregs[r as usize] = if (4..=10).contains(&r) { 0x1900 + r * 0x10 + t as u32 } else { r + 1 };
+            }
+            c.iregs[11] = fp as u32;
+            c.iregs[13] = sp as u32;
+            c.iregs[14] = 0;
+            c.iregs[15] = pc as u32;
+        }),
+        "arm64old" => ctx!(md::CONTEXT_ARM64_OLD, |c| {
+            c.context_flags = 0x80000006;
+            for r in 0..31u64 {
+                c.iregs[r as usize] = match r {
+                    29 => fp,
+                    30 => 0,
+                    19..=28 => 0x1900 + r * 0x10 + t,
+                    _ => r + 1,
+                };
+            }
+            c.sp = sp;
+            c.pc = pc;
+        }),
+        "mips" | "mips64" => ctx!(md::CONTEXT_MIPS, |c| {
+            c.context_flags = if cpu == "mips" { 0x40007 } else { 0x80007 };
+            for r in 0..32u64 {
+                c.iregs[r as usize] = if (16..=23).contains(&r) { 0x1900 + r * 0x10 + t } else { r + 1 };
+            }
+            c.iregs[29] = sp;
+            c.iregs[30] = fp;
+            c.iregs[31] = 0;
+            c.epc = pc;
+        }),
+        "ppc" => ctx!(md::CONTEXT_PPC, |c| {
+            c.context_flags = 0x20000003;
+            c.srr0 = pc as u32;
+            for r in 0..32u32 {
+                c.gpr[r as usize] = 0x100 + r + t as u32;
+            }
+            c.gpr[1] = sp as u32;
+            c.lr = 0x1234;
+        }),
+        "ppc64" => ctx!(md::CONTEXT_PPC64, |c| {
+            c.context_flags = 0x01000003;
+            c.srr0 = pc;
+            for r in 0..32u64 {
+                c.gpr[r as usize] = 0x100 + r + t;
+            }
+            c.gpr[1] = sp;
+            c.lr = 0x1234;
+        }),
+        "sparc" => ctx!(md::CONTEXT_SPARC, |c| {
+            c.context_flags = 0x10000003;
+            c.pc = pc;
+            c.npc = pc + 4;
+            for r in 0..32u64 {
+                c.g_r[r as usize] = 0x100 + r + t;
+            }
+            c.g_r[14] = sp;
+        }),
+        _ => arm64_ctx(pc, sp, fp, t as usize),
+    }
 }
 
 fn arm64_ctx(pc: u64, sp: u64, fp: u64, t: usize) -> Section {
@@ -475,30 +709,12 @@ fn arm64_ctx(pc: u64, sp: u64, fp: u64, t: usize) -> Section {
     s
 }
 
-fn amd64_ctx(rip: u64, rsp: u64, rbp: u64, t: usize) -> Section {
-    let mut s = Section::with_endian(LE)
-        .append_repeated(0, 8 * 6)
-        .D32(0x10001f)
-        .D32(0)
-        .append_repeated(0, 2 * 6)
-        .D32(0)
-        .append_repeated(0, 8 * 6);
-    // rax rcx rdx rbx
-    s = s.D64(1).D64(2).D64(3).D64(0x10 + t as u64);
-    s = s.D64(rsp).D64(rbp);
-    // rsi rdi r8..r15
-    for r in 0..10u64 {
-        s = s.D64(0x1200 + r * 0x10 + t as u64);
-    }
-    s = s.D64(rip);
-    s.append_repeated(0, 512).append_repeated(0, 16 * 26).append_repeated(0, 8 * 6)
-}
-
 fn build_dump(c: &RunCase) -> Vec<u8> {
-    let amd64 = c.alias == 4;
-    let mut dump = synth::SynthMinidump::with_endian(LE).add_system_info(
-        synth::SystemInfo::new(LE).set_processor_architecture(if amd64 { 9 } else { 12 }).set_platform_id(0x8201),
-    );
+    let amd64 = c.cpu == "amd64";
+    let spec = cpu_spec(&c.cpu).expect("cpu");
+    let w = spec.word;
+    let mut dump = synth::SynthMinidump::with_endian(LE)
+        .add_system_info(synth::SystemInfo::new(LE).set_processor_architecture(spec.arch).set_platform_id(0x8201));
     for (i, (path, _)) in c.mods.iter().enumerate() {
         let name = synth::DumpString::new(path, LE);
         match c.cv[i] {
@@ -535,26 +751,24 @@ fn build_dump(c: &RunCase) -> Vec<u8> {
             .add_unloaded_module(synth::UnloadedModule::new(LE, UNLOADED_BASE + off, 0x8000, &n, 0x4000_0000 + k as u32, 0))
             .add(n);
     }
+    let slot = |s: Section, v: u64| if w == 4 { s.D32(v as u32) } else { s.D64(v) };
+    // MIPS: the caller's instruction is the return address minus 8 (arm/x86: minus 1..4)
+    let ret_adj = if c.cpu.starts_with("mips") { 12 } else { 4 };
     for (t, chain) in c.thr.iter().enumerate() {
         let base = stack_base(t);
         let depth = chain.len();
         let mut stack = Section::with_endian(LE);
         for j in 0..depth {
-            let cfa = base + 32 * (j as u64 + 1);
-            let ret = if j + 1 < depth { mod_base(chain[j + 1]) + frame_off(j + 1) + 4 } else { UNLOADED_BASE + 0x5000 + 0x10 * (t as u64 % 64) };
-            stack = stack
-                .D64(0x5a00 + (t as u64) * 0x100 + j as u64) // x19 save (cfa-32)
-                .D64(0xA000_0000 + (t as u64) * 0x100 + j as u64) // `fp:` slot (cfa-24)
-                .D64(cfa + 16) // `x29:` slot (cfa-16): the caller's frame record
-                .D64(ret); // return address (cfa-8)
+            let cfa = base + 4 * w * (j as u64 + 1);
+            let ret = if j + 1 < depth { mod_base(chain[j + 1]) + frame_off(j + 1) + ret_adj } else { UNLOADED_BASE + 0x5000 + 0x10 * (t as u64 % 64) };
+            stack = slot(stack, 0x5a00 + (t as u64) * 0x100 + j as u64); // saved register (cfa-4w)
+            stack = slot(stack, 0xA000_0000 + (t as u64) * 0x100 + j as u64); // alternative fp slot (cfa-3w)
+            stack = slot(stack, cfa + 2 * w); // canonical fp slot (cfa-2w): the caller's frame record
+            stack = slot(stack, ret); // return address (cfa-w)
         }
         stack = stack.append_repeated(0, 64);
         let mem = synth::Memory::with_section(stack, base);
-        let ctx = if amd64 {
-            amd64_ctx(mod_base(chain[0]) + frame_off(0), base, base + 16, t)
-        } else {
-            arm64_ctx(mod_base(chain[0]) + frame_off(0), base, base + 16, t)
-        };
+        let ctx = ctx_section(&c.cpu, mod_base(chain[0]) + frame_off(0), base, base + 2 * w, t);
         let thread = synth::Thread::new(LE, tid(t), &mem, &ctx);
         dump = dump.add_thread(thread).add(ctx).add_memory(mem);
         if t % 2 == 0 {
@@ -569,9 +783,9 @@ fn build_dump(c: &RunCase) -> Vec<u8> {
         .set_linux_proc_status(b"Name:\tverif\nPid:\t4242\n")
         .set_linux_lsb_release(b"DISTRIB_ID=Verif\nDISTRIB_RELEASE=1.0\nDISTRIB_CODENAME=det\nDISTRIB_DESCRIPTION=\"Verif 1.0\"\n")
         .set_linux_cpu_info(b"processor\t: 0\nmicrocode\t: 0x1e\n");
-    if amd64 {
-        // code at the first thread's instruction pointer: `mov rax, [rbx]` then nops (crash analysis
-        // disassembles it), and the process memory map
+    if amd64 || c.cpu == "x86" {
+        // code at the first thread's instruction pointer: `mov rax, [rbx]` / `dec eax; mov eax, [ebx]`
+        // then nops (crash analysis disassembles it), and the process memory map
         let code = Section::with_endian(LE).append_bytes(&[0x48, 0x8b, 0x03]).append_repeated(0x90, 29);
         dump = dump.add_memory(synth::Memory::with_section(code, mod_base(c.thr[0][0]) + frame_off(0)));
         let mut maps = String::new();
@@ -1257,7 +1471,8 @@ fn text_register_names(stack_text: &str, f: usize) -> Vec<String> {
             }
             continue;
         }
-        if cur == f && t.contains(" = 0x") {
+        // (x86 frames may be followed by recovered arguments: `arg 0 (int) = 0x…`)
+        if cur == f && t.contains(" = 0x") && !t.starts_with("arg ") {
             let toks: Vec<&str> = t.split_whitespace().collect();
             for w in toks.windows(3) {
                 if w[1] == "=" && w[2].starts_with("0x") {
@@ -1338,16 +1553,22 @@ fn extract(c: &RunCase, base: &RunOut) -> Result<Extract, String> {
         .map(|t| (t["thread_id"].as_u64().unwrap_or(0) * 1000 + t["frame_count"].as_u64().unwrap_or(0)).to_string())
         .collect();
     // ---- registers of one recovered frame: the validity set in its REAL iteration order
-    let f = 1.min(state.threads[0].frames.len().saturating_sub(1));
-    let frame = &state.threads[0].frames[f];
-    let fixed: Vec<String> = frame.context.general_purpose_registers().iter().map(|r| hex(r.as_bytes())).collect();
-    let valid_in: Vec<String> = match &frame.context.valid {
-        MinidumpContextValidity::All => frame.context.general_purpose_registers().iter().map(|r| hex(r.as_bytes())).collect(),
-        MinidumpContextValidity::Some(set) => set.iter().map(|r| hex(r.as_bytes())).collect(),
+    // (a thread whose context could not be read has no frame at all: nothing to show)
+    let (fixed, valid_in, text_out): (Vec<String>, Vec<String>, Vec<String>) = if state.threads[0].frames.is_empty() {
+        (vec![], vec![], vec![])
+    } else {
+        let f = 1.min(state.threads[0].frames.len().saturating_sub(1));
+        let frame = &state.threads[0].frames[f];
+        let fixed: Vec<String> = frame.context.general_purpose_registers().iter().map(|r| hex(r.as_bytes())).collect();
+        let valid_in: Vec<String> = match &frame.context.valid {
+            MinidumpContextValidity::All => frame.context.general_purpose_registers().iter().map(|r| hex(r.as_bytes())).collect(),
+            MinidumpContextValidity::Some(set) => set.iter().map(|r| hex(r.as_bytes())).collect(),
+        };
+        let mut stack_text = vec![];
+        state.threads[0].print(&mut stack_text).map_err(|e| e.to_string())?;
+        let text_out: Vec<String> = text_register_names(&String::from_utf8_lossy(&stack_text), f).iter().map(|r| hex(r.as_bytes())).collect();
+        (fixed, valid_in, text_out)
     };
-    let mut stack_text = vec![];
-    state.threads[0].print(&mut stack_text).map_err(|e| e.to_string())?;
-    let text_out: Vec<String> = text_register_names(&String::from_utf8_lossy(&stack_text), f).iter().map(|r| hex(r.as_bytes())).collect();
     // ---- JSON registers: only the crashing thread's context frame has them; `json_registers`
     //      builds a HashSet of all register names for a fully valid context — its iteration order
     //      (here: that of an equally built set) is what must not matter
@@ -1812,6 +2033,10 @@ fn exec_run(c: &RunCase) -> ImplResult {
     res.tags.push(format!("threads:{}", if c.thr.len() > 30 { ">30".to_string() } else { ((c.thr.len() + 3) / 4 * 4).to_string() }));
     res.tags.push(format!("limits:{}", if c.lim_n == 0 { "none" } else if c.lim_n >= 8 { ">=8" } else { "<8" }));
     res.tags.push(format!("cfi-alias-flavour:{}", c.alias));
+    res.tags.push(format!("run-cpu:{}", c.cpu));
+    if cfi_frames > 0 {
+        res.tags.push(format!("has-cfi-frames:{}", c.cpu));
+    }
     res.tags.push(format!("distinct-completion-orders:{}", orders.len().min(6)));
     if cfi_frames > 0 {
         res.tags.push("has-cfi-frames".into());
@@ -1965,7 +2190,14 @@ fn gen_run(rng: &mut Rng, i: u64, tier: Tier) -> RunCase {
         } else if i % 4 == 3 {
             0
         } else {
-            1 + (rng.below(3) as u32)
+            *rng.pick(&[1u32, 1, 2, 3, 3, 5, 5])
+        },
+        cpu: if i % 8 == 7 {
+            "amd64".to_string()
+        } else {
+            // the CPUs whose unwinders evaluate STACK CFI get most cases; the ones with alias arms most of those
+            let rare = *rng.pick(&["ppc", "ppc64", "sparc", "mips64"]);
+            (*rng.pick(&["arm64", "arm64", "arm64", "arm", "arm", "arm", "arm", "x86", "x86", "mips", "arm64old", "amd64", rare])).to_string()
         },
         mods,
         thr,
